@@ -5,3 +5,7 @@ pub mod gen;
 pub mod scen_build;
 #[cfg(feature = "hooks")]
 pub mod scen_hook;
+pub mod scen_render;
+pub mod scen_file;
+#[cfg(feature = "hooks")]
+pub mod scen_wasm;
